@@ -441,6 +441,11 @@ func init() {
 		return tuple{int64(1700000100) + ns/1_000_000_000, int32(ns % 1_000_000_000), int64(1_000_000_000) + ns}
 	}
 	intrinsics["time.now"] = intrinsics["time.runtimeNow"]
+	intrinsics["time.Sleep"] = func(fr *frame, args []value) value {
+		fr.p.clock += asInt64(args[0])/1_500_000 + 1
+		yield(fr)
+		return nil
+	}
 	intrinsics["time.runtimeNano"] = func(fr *frame, args []value) value { return int64(1) }
 	intrinsics["syscall.runtime_envs"] = func(fr *frame, args []value) value { return []value(nil) }
 	intrinsics["os.runtime_args"] = func(fr *frame, args []value) value { return []value{"pkappa2"} }
